@@ -21,6 +21,7 @@ Definition q0 (es : list cnode) : cnode := CSeq (h0 "!!seq" 0) es.
 
 Inductive case20 :=
 | KDocs (docs : list (cnode * sch)) (nonstr : list string)
+        (hastype : list (string * string))       (* (value, OpenAPI type) pairs for which valueHasType holds *)
         (cls : oclass) (outs : list cnode)
         (written : option (list cnode * bool))   (* re-parsed ByteWriter output; compare comments? *)
         (dc_in dc_out : list string)             (* comments on the DocumentNodes (outside fmtNode's reach)
@@ -142,9 +143,10 @@ Fixpoint count_distinct (l : list string) : N :=
 
 Definition agree20 (c : case20) : bool :=
   match c with
-  | KDocs docs ns cls outs written dci dco =>
+  | KDocs docs ns ht cls outs written dci dco =>
       let nonstr := fun s => str_in s ns in
-      match filter_stream nonstr isort docs with
+      let hastype := fun v t => existsb (fun p => String.eqb (fst p) v && String.eqb (snd p) t) ht in
+      match filter_stream nonstr hastype isort docs with
       | Ok outs' =>
           oclass_eqb20 cls COk && list_eqb cnode_eqb outs' outs &&
           match written with
@@ -177,9 +179,10 @@ Definition mismatches20 (l : list case20) : list N := mism_from20 0%N l.
 (* diagnostic: which comparison fails (0 = none) — used when investigating a disagreement *)
 Definition diag20 (c : case20) : N :=
   match c with
-  | KDocs docs ns cls outs written dci dco =>
+  | KDocs docs ns ht cls outs written dci dco =>
       let nonstr := fun s => str_in s ns in
-      match filter_stream nonstr isort docs with
+      let hastype := fun v t => existsb (fun p => String.eqb (fst p) v && String.eqb (snd p) t) ht in
+      match filter_stream nonstr hastype isort docs with
       | Ok outs' =>
           if negb (oclass_eqb20 cls COk) then 1%N
           else if negb (list_eqb cnode_eqb outs' outs) then 2%N
